@@ -116,8 +116,27 @@ impl ListSeparator {
 /// In Sass, underscores and hyphens are considered equal when inside identifiers.
 ///
 /// This struct protects that invariant by normalizing all underscores into hyphens.
-#[derive(Clone, Eq, PartialEq, Hash, PartialOrd, Ord, Copy)]
+#[derive(Clone, Eq, PartialEq, Hash, Copy)]
 pub struct Identifier(InternedString);
+
+// Identifiers are ordered by their text. Ordering them by their interned key
+// would make the iteration order of every `BTreeMap<Identifier, _>` depend on
+// what else the thread has compiled before.
+impl Ord for Identifier {
+    fn cmp(&self, other: &Self) -> std::cmp::Ordering {
+        if self.0 == other.0 {
+            return std::cmp::Ordering::Equal;
+        }
+
+        self.as_str().cmp(other.as_str())
+    }
+}
+
+impl PartialOrd for Identifier {
+    fn partial_cmp(&self, other: &Self) -> Option<std::cmp::Ordering> {
+        Some(self.cmp(other))
+    }
+}
 
 impl fmt::Debug for Identifier {
     fn fmt(&self, f: &mut fmt::Formatter<'_>) -> fmt::Result {
